@@ -757,7 +757,6 @@ bool qvector_resize(qvector_t *vector, size_t newmax) {
         vector->data = NULL;
         vector->max = 0;
         vector->num = 0;
-        vector->objsize = 0;
 
         vector->unlock(vector);
         return true;
